@@ -28,14 +28,27 @@ Definition sl_trace (limit : nat) (w : string) : string := with_prog w (trace_m 
 Definition sl_all (w : string) : string :=
   with_prog w (fun p => render p ++ "@" ++ eval_cells p ++ "@" ++ run_m the_cfg p ++ "@" ++ show_compiled the_cfg p).
 
-(* the same with explicit repair flags (attribution of a deviation to a known class):
-   eval @ run_m(actual) @ run_m(break repaired) @ run_m(unwind repaired) @ run_m(both) @ nontrivial @ closed accesses *)
-Definition cfg_bu (b u : bool) : cfg := mkCfg (c_locals_max the_cfg) (c_upvalues_max the_cfg) b u (c_catch_pops the_cfg).
-Definition sl_classify (w : string) : string :=
+(* everything about one program in ONE evaluation (the program is decoded and compiled once):
+   render @ eval_cells @ run_m @ non-trivial? @ accesses to closed upvalues @ code *)
+Definition sl_bundle (w : string) : string :=
   with_prog w (fun p =>
-    eval_cells p ++ "@" ++ run_m the_cfg p ++ "@" ++ run_m (cfg_bu true (c_unwind_closes the_cfg)) p ++ "@" ++
-    run_m (cfg_bu (c_break_pops_first the_cfg) true) p ++ "@" ++ run_m (cfg_bu true true) p ++ "@" ++
-    show_bool (nontrivial_m the_cfg p) ++ "@" ++ show_nat (closed_accesses_m the_cfg p)).
+    let ev := eval_cells p in
+    match compile_scope the_cfg p with
+    | Some funs =>
+        let acc := rev (access_loop the_cfg funs (machine_fuel * 25) (m_start funs) []) in
+        render p ++ "@" ++ ev ++ "@" ++ run_funs the_cfg (machine_fuel * 25) funs ++ "@" ++
+        show_bool (write_then_other_read acc) ++ "@" ++ show_nat (List.length acc) ++ "@" ++
+        concat "|" (map show_func funs)
+    | None => render p ++ "@" ++ ev ++ "@#compile-error@F@0@ERR " ++ compile_error the_cfg p
+    end).
+
+(* attribution of a deviation to a (formerly) known class: the model with one repair switched on:
+   run_m(break repaired) @ run_m(unwind repaired) @ run_m(both) *)
+Definition cfg_bu (b u : bool) : cfg := mkCfg (c_locals_max the_cfg) (c_upvalues_max the_cfg) b u (c_catch_pops the_cfg).
+Definition sl_ablate (w : string) : string :=
+  with_prog w (fun p =>
+    run_m (cfg_bu true (c_unwind_closes the_cfg)) p ++ "@" ++
+    run_m (cfg_bu (c_break_pops_first the_cfg) true) p ++ "@" ++ run_m (cfg_bu true true) p).
 
 (* eval_cells p = run_m (compile_scope p) on one program, as a boolean (for bulk self-tests) *)
 Definition sl_agree (w : string) : string :=
